@@ -116,6 +116,33 @@ CHECKS = {
    note=("Trusted: kernel, py2v.py, harness, BigF evaluation; np.linalg.eig/inv are oracles (recorded); cos/sin of the angle are data."),
    technique='Coq theorems (list induction, ring/field, reals) + PrimFloat witnesses + correspondence in exact rationals / bigfloats',
    ref='DESIGN.md §3 C10'),
+ 'C11': dict(
+   text=("Model of the intersect dispatch table, Line-Line (Cramer as coded, isclose snap, closed range test), bezier_by_line "
+         "(shift/rotate, y-polynomial, roots oracle, set, x-test), bezier_intersections as a fuelled worklist machine incl. CPython "
+         "list-iterator semantics of remove-while-iterating, Path.intersect (index() of the first equal segment, joint de-dup) "
+         "(coq/Model/Isect.v). Theorems: Line-Line soundness (range + P(t1)=Q(t2), field) and operand swap; Bezier-Line: an exact root "
+         "passing the x-test is a common point (degree 1-3) and residual = |ypoly| (Lipschitz bound for approximate roots, _partial); "
+         "worklist: every reported pair is the centre pair of two k-fold halvings with intersecting boxes of area < tol, parameters odd "
+         "multiples of 2^-(k+1) in (0,1) (any fuel) — the statement's distance bound does NOT follow from an area bound (witness); swap "
+         "through the dispatch table; Path entries coherent under NoDup, refuted for duplicate segments. Tie: 11 translator agreement "
+         "lemmas + exact-rational ties of Line-Line, Bezier-Line (np.roots recorded), the worklist machine, Path T values; residuals of "
+         "every reported pair computed inside Coq (exact / bigfloat for arcs)."),
+   note=("Trusted: kernel, py2v.py, harness, BigF evaluation; np.roots oracle; arc solvers (point_to_t, phase2t, circle-circle) are not "
+         "modelled, only their results are judged. Exceptions for non-circular arc pairs tolerated as the statement says."),
+   technique='Coq theorems (field, induction over the worklist machine) + translator agreement + residual certificates computed in Coq',
+   ref='DESIGN.md §3 C11'),
+ 'C12': dict(
+   text=("Theorems: Line-Line completeness (unsnapped denominator => the common point is the single pair returned); every Bezier-Line "
+         "crossing parameter is an exact root of the y-polynomial, reported once given the oracle contract; de-dup is the identity without "
+         "close pairs, refuted as coded; pruning is safe except for degenerate (zero-width/touching) boxes — refuted witness; a level without "
+         "reports loses no pair; the remove-while-iterating skip refuted by two parabolas; Path: nothing lost before the joint de-dup, nothing "
+         "removed when points are >= tol apart; IVT lemma for sign-change brackets. Exact crossing counts of Line/Bezier pairs are computed "
+         "in Coq (Sturm/Tarski count on BigQ) with per-case bracket certificates checked in exact arithmetic. Tie/property: constructed "
+         "transversal crossings must be reported within 1e-4, once; exact counts vs len(result); path crossings strictly inside segments."),
+   note=("Trusted: kernel, harness; Sturm's theorem itself is not proved (each count is certified by disjoint sign-change brackets); "
+         "np.roots oracle; calls exceeding the wall-clock guard are counted as inconclusive, not judged."),
+   technique='Coq theorems + exact root counting in Coq with certificates + constructed-crossing differential testing',
+   ref='DESIGN.md §3 C12'),
  'C13': dict(
    text=("As-coded models of Line.radialrange, bezier_radialrange (candidates 0,1 + roots01 of d/dt|B-z|^2, first-extremal min/max), "
          "Path.radialrange with indices (coq/Model/Extrema.v). Theorems over R: Line: returned (d,t) are attained and GLOBAL on [0,1] (full); "
